@@ -294,4 +294,38 @@ theorem sigmaDirect_spec (ph : Phys) (h : ph.Valid) (Tn : ℝ) (hT : Tn < ph.Teq
   · intro x hx
     exact hq.2 x hx.2.1 hx.2.2 hx.1
 
+/-- the primary constants of a configuration as physical parameters -/
+def physOf (y : Primary ℝ) : Phys where
+  w_s := y.solid_fraction
+  cp_s := y.cp_s
+  cp_w := y.cp_w
+  cp_i := y.cp_i
+  lam := y.Dh
+  T_m := y.T_eq
+  k_f := y.k_f
+  M_s := y.M_s
+  rho := y.rho_l
+  V := y.length * y.width * y.height
+  b := y.b
+
+
+/-- primary constants of `snowConfig_default.yaml` -/
+noncomputable def defaultPrimary : Primary ℝ where
+  T_eq := 0
+  b := 29.3
+  rho_l := 1000
+  height := 0.01
+  length := 0.01
+  width := 0.01
+  cp_s := 1240
+  solid_fraction := 0.05
+  cp_w := 4187
+  cp_i := 2108
+  k_f := 1.853
+  M_s := 0.3423
+  Dh := 333550
+
+theorem defaultPrimary_valid : (physOf defaultPrimary).Valid := by
+  constructor <;> simp only [physOf, defaultPrimary] <;> norm_num
+
 end Snow.FlakeLemmas
